@@ -299,12 +299,11 @@ def _topologies():
 
   def stateful(mb, g):
     # an operator that keeps state in a variable tensor between invocations
-    # (RNN / LSTM / SVDF style): calibration must reset it per sample
+    # (builtin RNN): calibration must reset it per sample
     x = g.input('x', (1, 2))
-    h = g.fc(x, 'h')
-    st = g.act('state', (1, 2))
-    g.sg.tensors[st].isVariable = True
-    g.output(g.binary('ADD', h, st, 'y'))
+    h = g.rnn(x, 'h')
+    c = g.const('c', np.array([[0.25, -0.5]], np.float32))
+    g.output(g.binary('ADD', h, c, 'y'))
   add('stateful_variable_tensor', stateful)
 
   def weight_is_output(mb, g):
@@ -802,8 +801,19 @@ def symbolic_qsvs(e, model, backend_name):
   return qsvs
 
 
+def constant_stats_under(model_bytes, recipe):
+  """Statistics of the constants as calibrate() records them under `recipe`
+  (real Calibrator initialisation; concrete)."""
+  from ai_edge_quantizer import calibrator as calibrator_lib
+  rm = recipe_manager.RecipeManager()
+  rm.load_quantization_recipe(copy.deepcopy(recipe))
+  cal = calibrator_lib.Calibrator(bytes(model_bytes))
+  cal._initialize_model_qsvs(rm)
+  return {k: v for k, v in cal.get_model_qsvs().items() if v}
+
+
 def run_pipeline(e, model_bytes, recipe, backend='UF', qsvs=None,
-                 history=None):
+                 history=None, const_stats_recipe=None):
   be = symnp.set_backend(B.UF() if backend == 'UF' else B.Bits())
   be.reset()
   out = Outcome()
@@ -853,6 +863,11 @@ def run_pipeline(e, model_bytes, recipe, backend='UF', qsvs=None,
   out.recipe_manager = rm
   if qsvs is None:
     qsvs = symbolic_qsvs(e, out.input_model, backend) if rm.need_calibration() else None
+  if const_stats_recipe is not None and qsvs is not None:
+    # the calibration result was produced under ANOTHER recipe: it carries
+    # the constants' statistics as that recipe's granularity shaped them
+    for k, v in constant_stats_under(model_bytes, const_stats_recipe).items():
+      qsvs.setdefault(k, v)
   out.qsvs = qsvs
   captured = []
 
@@ -936,12 +951,13 @@ def io_quantized(out):
 # generic job: explore (UF) -> concretise (BITS) -> candidate
 # ---------------------------------------------------------------------------
 def explore_case(skel, rname, model_bytes, recipe, oracle_fn, max_paths=3000,
-                 wall_s=120, history=None):
+                 wall_s=120, history=None, const_stats_recipe=None):
   """oracle_fn(e, out) issues e.check(...) calls with concrete bools."""
 
   def harness_for(backend):
     def h(e):
-      out = run_pipeline(e, model_bytes, recipe, backend, history=history)
+      out = run_pipeline(e, model_bytes, recipe, backend, history=history,
+                         const_stats_recipe=const_stats_recipe)
       e.reach('pipeline')
       oracle_fn(e, out)
     return h
@@ -959,7 +975,8 @@ def explore_case(skel, rname, model_bytes, recipe, oracle_fn, max_paths=3000,
     status, vals = Engine(solver_timeout_ms=60000).concretize(
         harness_for('BITS'), v, timeout_ms=60000)
     data = {'skeleton': skel, 'recipe': rname, 'info': v.info,
-            'concretize': status, 'history': history}
+            'concretize': status, 'history': history,
+            'const_stats_recipe': const_stats_recipe}
     if status == 'sat':
       data['stats'] = {k: z3val_to_py(x) for k, x in vals.items()}
     else:
